@@ -984,6 +984,7 @@ func genExpNamespaces(r *rand.Rand, ts []Tup, s Sub) []*namespace.Namespace {
 // ---- the stream ----
 
 func (e *expEnv) emit(o *Out, c *ExpCase, id string, plain bool, checkLeaves string) {
+	o.Pre("expand", id, c.Payload())
 	tree, calls, errs := e.runEngine(c)
 	ts := renderTree(tree)
 	if errs != "" {
